@@ -120,7 +120,7 @@ func detProfile() *Profile {
 		OpDelegate: 4, OpUndelegate: 3, OpRedelegate: 2, OpReqAttest: 2, OpWithdrawTokens: 1, OpSend: 1, OpGov: 1, OpCreateVal: 1,
 	}
 	p := &Profile{Name: "det", Weights: w, MinBlocks: 10, MaxBlocks: 28, MaxOps: 6, AbsentPM: 60, BadVarPM: 60, Setup: true, ThoroughScale: 3,
-		GapW: []int{2, 3, 10, 30, 3, 2, 2, 2, 5, 4, 4, 1, 1, 0}}
+		GapW: []int{2, 3, 10, 30, 3, 2, 2, 2, 5, 4, 4, 1, 1, 0, 4}}
 	// equal stakes everywhere: equal validator powers, every user delegates the same amount, so that
 	// mode ties, equal reward shares and equal vote weights are frequent
 	p.Genesis = func(t *rapid.T) GenesisCfg {
